@@ -66,7 +66,7 @@ Definition expected_covered : list string :=
   ["keyvalue.PutData"; "keyvalue.DeleteData"; "labelmap.CleaveLabel"; "labelmap.ChangeLabelIndex";
    "neuronjson.storeAndUpdate"; "datastore.newVersion";
    "annotation.StoreElements"; "annotation.DeleteElement"; "annotation.MoveElement"; "datastore.merge";
-   "neuronjson.DeleteData"].
+   "neuronjson.DeleteData"; "labelmap.setMapping"].
 
 Definition named_site_covered (name : string) : bool :=
   match find_site name with Some s => site_covered s | None => false end.
